@@ -31,7 +31,20 @@ var (
 // OpaqueKinds names the non-JSON leaf kinds (index into Opaque).
 var OpaqueKinds = []string{"struct", "empty-struct", "uncomparable-struct", "ptr-struct", "ptr-int", "nil-ptr", "nil-map", "nil-slice",
 	"typed-map", "typed-slice", "array", "int", "int64", "uint8", "float32", "complex", "func", "func2", "chan", "bytes", "error",
-	"map-iface-iface", "slice-of-maps", "named-string", "named-float", "named-map", "named-slice", "map-string-int", "uncomparable-ptr"}
+	"map-iface-iface", "slice-of-maps", "named-string", "named-float", "named-map", "named-slice", "map-string-int", "uncomparable-ptr",
+	// statically comparable types whose DYNAMIC content is not (interface == on them panics), and pointers that are
+	// distinct objects with deep-equal content (identity and deep equality disagree)
+	"struct-iface-slice", "struct-iface-map", "array-iface-slice", "fresh-ptr-struct", "fresh-ptr-int", "fresh-ptr-slice", "struct-with-fresh-ptr", "iface-array-comparable"}
+
+type ifaceHolder struct {
+	Name  string
+	Value interface{}
+}
+
+type ptrHolder struct {
+	ID   int
+	Next *int
+}
 
 // Opaque returns the i-th non-JSON Go value.
 func Opaque(i int) interface{} {
@@ -94,6 +107,24 @@ func Opaque(i int) interface{} {
 		return map[string]int{"a": 1}
 	case "uncomparable-ptr":
 		return &uncomparable{S: []int{1}}
+	case "struct-iface-slice":
+		return ifaceHolder{Name: "n", Value: []int{1, 2}}
+	case "struct-iface-map":
+		return ifaceHolder{Name: "n", Value: map[string]int{"a": 1}}
+	case "array-iface-slice":
+		return [1]interface{}{[]string{"a"}}
+	case "fresh-ptr-struct":
+		return &opaqueStruct{1, "x"} // a new object on every call
+	case "fresh-ptr-int":
+		v := 7
+		return &v
+	case "fresh-ptr-slice":
+		return &[]int{1, 2}
+	case "struct-with-fresh-ptr":
+		v := 7
+		return ptrHolder{ID: 1, Next: &v}
+	case "iface-array-comparable":
+		return [2]interface{}{1.0, "a"}
 	}
 	return nil
 }
